@@ -128,9 +128,38 @@ class Interp:
                 raise Unknown(norm(e))
         if isinstance(e, ast.IfExp):
             return self.ev(e.body) if self.ev(e.test) else self.ev(e.orelse)
+        if isinstance(e, ast.Call) and isinstance(e.func, ast.Name) and e.func.id in ("any", "all", "sum", "list", "tuple") and len(e.args) == 1 \
+                and isinstance(e.args[0], (ast.GeneratorExp, ast.ListComp)) and not e.keywords:
+            vals = self.comprehension(e.args[0])
+            return {"any": any, "all": all, "sum": sum, "list": list, "tuple": tuple}[e.func.id](vals)
+        if isinstance(e, ast.ListComp):
+            return self.comprehension(e)
         if isinstance(e, ast.Call):
             return self.call(e)
         raise Unknown(type(e).__name__)
+
+    def comprehension(self, c) -> list:
+        """values of a generator expression / list comprehension (its variables are local to it)"""
+        out = []
+        saved = dict(self.env)
+
+        def level(k):
+            if k == len(c.generators):
+                out.append(self.ev(c.elt))
+                return
+            g = c.generators[k]
+            seq = self.ev(g.iter)
+            if not isinstance(seq, (list, tuple)):
+                raise Unknown(f"iteration over {norm(g.iter)}")
+            for x in seq:
+                self.bind(g.target, x)
+                if all(self.ev(t) for t in g.ifs):
+                    level(k + 1)
+        try:
+            level(0)
+        finally:
+            self.env = saved
+        return out
 
     def call(self, e: ast.Call):
         if e.keywords and any(k.arg is None for k in e.keywords):
